@@ -58,13 +58,16 @@ ASSUMPTIONS = {
     "C09": ["reflect addressability is one boolean of the model (validated by the correspondence); AEAD / HKDF / HMAC are symbolic (Enc k l, Hmac k l): "
             "'cannot be read without the key' means the output leaf is not Plain",
             "payloads range over the shape grammar G of DESIGN 5.C09 (Encrypt.v type v); IgnoreTypes, structpb.Struct payloads, struct payloads passed by value, "
-            "named string types (json.Number, type T string) are not among the kinds the filter supports: it leaves them alone, also under a class tag; the model carries them as non-string values that must be preserved", "struct payloads passed by value are compared with the model (and snapshot-checked for C10) but are outside no_leak (their own strings cannot be set); []*string, arrays, strings held in interface{} fields / []interface{} elements, pointer tags that go through anything but maps are outside G; a Taggable map DIRECTLY as a value of an untagged map is swept as an untagged map (modelled; its tags are not honoured); Filter.IgnoreTypes is outside the model: where the rule applies only the input-side oracles are evaluated",
+            "named string types (json.Number, type T string) are not among the kinds the filter supports: it leaves them alone, also under a class tag; the model carries them as non-string values that must be preserved", "struct payloads passed by value are compared with the model (and snapshot-checked for C10) but are outside no_leak (their own strings cannot be set); []*string, arrays, strings held in interface{} fields / []interface{} elements, a payload behind a pointer to an interface, pointer tags that go through anything but maps are outside G (array, []interface{} and *interface{} payloads are run with the input-side oracles only; a payload that is a slice of slices is inside: the filter leaves the inner slices alone and the model says so); a Taggable map DIRECTLY as a value of an untagged map is swept as an untagged map (modelled; its tags are not honoured); Filter.IgnoreTypes is outside the model: where the rule applies only the input-side oracles are evaluated",
             "with every operation overridden to none Process returns the event untouched before looking at the payload kind, so a rotation payload is then forwarded (C10's clause wins over C09's)"],
     "C10": ["'the original is untouched' is not expressible in the heap-free model: it is tied dynamically on every case - deep snapshot of the input event before / after Process (KMutated), and again after the forwarded event has been rewritten from top to bottom, Formatted included (KAliased: the copy shares nothing with the original) - partial",
             "copystructure (deep copy that zeroes unexported fields) is modelled by Encrypt.copyz, validated by the correspondence",
-            "a zero / nil payload with a missing wrapper and an encrypting configuration yields an error, not the same event (the wrapper check comes first)"],
+            "a zero / nil payload with a missing wrapper and an encrypting configuration yields an error, not the same event (the wrapper check comes first)",
+            "the model classifies a struct by the class tags of ITS OWN type: distinct Go types that share package path and name (function-local `type payload struct`: main.payload x 3, main.record x 2, with opposite tags on the same field names) are different trees; all cases of a run execute in ONE process, as payloads, fields and slice elements, through fresh Filters and on one Filter, so anything the library remembers per type name shows"],
     "C16": ["AEAD (AES-GCM of go-kms-wrapping), wrapper derivation, HKDF and HMAC-SHA256 are Section functions with the hypotheses dec k (enc k n m) = Some m; determinism is functionality",
             "each encrypt()/hmacSha256() call, each Rotate / rotation payload and the head of Process of an event with per-event wrapper info (wrapper derivation + resolution of its salt / info) is one atomic step: they run under Filter.l",
+            "a rotation made from a Taggable's Tags() callback (Rotate or a rotation payload through Process) is the deterministic stand-in for a rotation scheduled between two values of one event: the values of the fields before the Taggable are produced before it, the Taggable's own entries and the later fields after it (schedule AStart; AVal*; ARot; AVal* of Crypto.crun, theorem C16_callback_schedule)",
+            "a value is attributed among the candidates of ITS case: every wrapper's key, the per-event keys of the wrappers the case uses for every event id, the salts / infos the case uses (and empty, 1..3); a value no candidate reproduces is reported like a value under the wrong triple",
             "an HKDF salt is an HMAC key (zero-padded): nil = empty salt, trailing NUL bytes of a salt are immaterial, and event ids that differ only in trailing NUL bytes derive the same per-event key (NewEventWrapper uses the id as salt) - the model identifies them", "Filter.Rotate(WithSalt(s)) and the exported HmacSalt / HmacInfo fields keep the caller's slice (the unmutated library does; neither C16 nor C19 forbids it): only a write of the LIBRARY into such a slice is reported (CKCallerSlice), and filters configured from one slice are each judged against their own history", "the harness re-implements HKDF, HMAC framing, the per-event key derivation, the BlobInfo wire format and AES-GCM open independently of the library"],
 }
 _NOTE = ("Trusted: Coq 8.16.1 kernel + vm_compute; no axioms (Print Assumptions: closed under the global context); the Go correspondence harness encrypth: "
@@ -82,8 +85,8 @@ MANIFEST = {
                     "PARTIAL: 'the original is untouched' is tied dynamically (deep snapshot before/after on every case), not proved; tie: same generator as C09 (by-value struct payloads with reference-typed fields included), structural diff output vs input",
             "design_ref": "5.C10", "note": _NOTE, "technique": _TECH, "engine": "coq-encrypt"},
     "C16": {"text": "Crypto.v (key state (wrapper, salt, info), Rotate / rotation payload / event operations, key_in_force with per-event derived wrapper and salt/info precedence, framing over Base64.v); theorems "
-                    "b64url_roundtrip, decrypt_roundtrip (all byte strings), hmac_value, hmac_deterministic, rotation_takes_effect (all histories), value_atomic / value_atomic_plain / value_atomic_event (all interleavings of rotations, event starts and per-value steps: every value of every event kind is produced under ONE key generation); "
-                    "tie: encrypth -crypto runs histories of Rotate / rotation payloads / events (salt/info on filter and event, event id present/absent, empty and non-UTF-8 values), "
+                    "b64url_roundtrip, decrypt_roundtrip (all byte strings), hmac_value, hmac_deterministic, rotation_takes_effect (all histories), value_atomic / value_atomic_plain / value_atomic_event (all interleavings of rotations, event starts and per-value steps: every value of every event kind is produced under ONE key generation), callback_schedule / callback_event_under_key_at_start (an event rotated part way through: an event with wrapper info stays under the key in force at its start, also when the filter had no salt / info of its own); "
+                    "tie: encrypth -crypto runs histories of Rotate / rotation payloads / events (salt/info on filter and event absent / empty / set, event id present/absent, empty and non-UTF-8 values; salt, info, event id, key id and plaintext over the length alphabet 0, 1, 63, 64, 65, 127, 128, 129, 1100 bytes with shared 64- and 128-byte prefixes), events that rotate the filter from their own Tags() callback (three payload shapes, with and without wrapper info, both rotation routes), "
                     "an independent implementation reports which (key, salt, info) reproduces each output",
             "design_ref": "5.C16", "note": _NOTE, "technique": _TECH, "engine": "coq-encrypt"},
 }
